@@ -12,6 +12,8 @@ Structural invariants that any correct LRU built from a key map plus a recency q
  R1d `get` refreshes recency exactly on the hit path.
  R2  one critical section per ObjectCache operation: exactly one lock acquisition and exactly one
      LruCache call on every path; operations that touch recency take the write lock.
+ R1e the recency queue is only touched through order-preserving operations (push/pop at the ends,
+     retain/remove); swap_remove/rotate/sort style calls are refuted.
  R3  only the LruCache impl writes its fields (private fields; who-may-write).
 Not decided: equivalence with an abstract LRU over histories; linearizability (model checking).
 """
@@ -76,6 +78,24 @@ def run(ctx):
                               {"path_lines": [fn.line(x) for x in w]})
             else:
                 ctx.ok("R1a", key, "guarded by retain or the absent-key edge", fn.where(b))
+    # R1e method whitelist on the recency queue: only order-preserving operations
+    ALLOWED = {"push_front", "push_back", "pop_front", "pop_back", "retain", "retain_mut", "remove", "clear", "len", "is_empty",
+               "with_capacity", "new", "iter", "contains", "front", "back", "capacity", "reserve", "shrink_to_fit", "truncate"}
+    nq = 0
+    for fn in [f for f in ctx.facts.fns.values() if f.id.startswith("memory::cache::LruCache")]:
+        for b, c, args, dest, tgt, uw in fn.calls():
+            p = c.get("p") or ""
+            if not p.startswith("std::collections::VecDeque::<T, A>::"):
+                continue
+            nq += 1
+            name = L.short(p)
+            if name not in ALLOWED:
+                ctx.violation("R1e", "%s:queue-op:%s" % (L.short(fn.parent or fn.id), name), "the recency queue is modified with `%s`, which "
+                              "does not preserve the relative order of the other keys: after it the back of the queue is no longer the "
+                              "least recently used key" % name, fn.where(b))
+            else:
+                ctx.ok("R1e", "%s:queue-op:%s" % (L.short(fn.parent or fn.id), name), "order-preserving", fn.where(b), nontrivial=False)
+    ctx.floor("R1e", "operations on the recency queue", nq, 6)
     # R1b ends
     if not ctx.floor("R1b", "queue push/pop call kinds", len(push_ends) + len(pop_ends), 2):
         return
